@@ -1,5 +1,6 @@
 import copy
 import enum
+import re
 from typing import Tuple
 
 import valida.data
@@ -160,9 +161,10 @@ class DataPath:
         is_escaped = False
         unescaped = {}  # a new mapping: the caller's spec is left as it is
         for k, v in spec.items():
-            if ESC_CODE in k:
+            # (specification keys are read in any letter case, so escapes are as well)
+            if ESC_CODE in (k.lower() if isinstance(k, str) else k):
                 is_escaped = True
-                k = k.replace(ESC_CODE, REPLACE)
+                k = re.sub(re.escape(ESC_CODE), lambda m: m.group()[1:], k, flags=re.I)
             unescaped[k] = v
         if is_escaped:
             return unescaped
